@@ -233,7 +233,11 @@ async def session(sc):
             for _ in range(40):
                 try:
                     link.pump()
-                except M.MiniSSHError:
+                    if serve:
+                        serve()
+                    else:
+                        link.serve_client()
+                except (M.MiniSSHError, T.Failure):
                     break
                 await asyncio.sleep(0)
                 if lost['exc'] != 'none' or link.closed:
@@ -241,12 +245,17 @@ async def session(sc):
             for _ in range(10):
                 await asyncio.sleep(0)
             exc = lost['exc']
+            errored = not isinstance(exc, str) and exc is not None
+            if sc['tail'] == 'newkeys':
+                rejected = errored
+            else:       # accepted = the stale packet's content reached the application (a stall on a garbage length is not)
+                rejected = b'stale keys' not in echoed()
             res['tail'] = {'kind': sc['tail'], 'lost': exc if isinstance(exc, str) else type(exc).__name__,
-                           'rejected': not isinstance(exc, str) and exc is not None}
+                           'rejected': rejected, 'errored': errored}
         res['tap'] = link.tap
         ops = S.to_ops(link.tap)
         code = 0
-        if res.get('tail', {}).get('rejected'):
+        if res.get('tail', {}).get('errored'):
             if sc['tail'] == 'newkeys':
                 code = 2
                 last = max((i for i, o in enumerate(ops) if o['act'][0] == 'RecvNewKeys'), default=len(ops) - 1)
